@@ -479,6 +479,7 @@ type Contract struct {
 	Results   []Param
 	Requires  []*Expr
 	Ensures   []*Expr
+	Assumed   []*Expr // postconditions assumed for callers, not proved on the body
 	Modifies  []*Expr
 	HasMod    bool
 	PanicWhen *Expr
@@ -510,7 +511,14 @@ type GhostVar struct {
 	Type string
 }
 
+type Axiom struct {
+	Pkg  string
+	Expr *Expr
+	Pos  string
+}
+
 type SpecSet struct {
+	Axioms    []Axiom
 	Contracts map[string]*Contract // key: pkgpath + "::" + Key
 	Macros    map[string]*MacroDef // key: pkgpath + "::" + name ; also global "::name"
 	GhostF    []GhostField
@@ -526,7 +534,7 @@ func NewSpecSet() *SpecSet {
 var clauseKeywords = map[string]bool{
 	"pred": true, "pure": true, "func": true, "iface": true, "requires": true, "ensures": true, "modifies": true,
 	"invariant": true, "loop": true, "decreases": true, "panics": true, "mode": true, "ghost": true,
-	"trusted": true, "inline": true, "package": true, "fresh": true, "lemma": true, "callback": true, "noverify": true, "opaque": true,
+	"trusted": true, "inline": true, "assumes": true, "axiom": true, "package": true, "fresh": true, "lemma": true, "callback": true, "noverify": true, "opaque": true,
 }
 
 // LoadSpecFile parses one contract file. pkgPath is the default package for the file.
@@ -586,6 +594,13 @@ func (ss *SpecSet) LoadSpecFile(path, pkgPath string, trustedFile bool) error {
 		case "package":
 			pkgPath = rest
 			cur, curLoop, curCb = nil, nil, nil
+		case "axiom":
+			cur, curLoop, curCb = nil, nil, nil
+			e, err := parse(rest)
+			if err != nil {
+				return err
+			}
+			ss.Axioms = append(ss.Axioms, Axiom{Pkg: pkgPath, Expr: e, Pos: pos})
 		case "pred", "pure", "opaque":
 			cur, curLoop, curCb = nil, nil, nil
 			opaque := false
@@ -672,6 +687,12 @@ func (ss *SpecSet) LoadSpecFile(path, pkgPath string, trustedFile bool) error {
 				} else {
 					cur.Ensures = append(cur.Ensures, e)
 				}
+			case "assumes":
+				e, err := parse(rest)
+				if err != nil {
+					return err
+				}
+				cur.Assumed = append(cur.Assumed, e)
 			case "modifies":
 				var locs []*Expr
 				if rest != "nothing" {
@@ -868,6 +889,7 @@ func parseFuncHeader(kw, s, pos string) (*Contract, error) {
 	case kw == "iface":
 		c.IsIface = true
 		c.Key = name
+		c.Recv = &Param{Name: "self"}
 	case c.Recv != nil:
 		t := strings.TrimPrefix(c.Recv.Type, "*")
 		if c.RecvPtr {
